@@ -116,10 +116,11 @@ func EvalEx(e *Ex, pts []SubPoint, fields map[string]*Ex) (float64, bool) {
 				mx = v
 			}
 			n++
-			sum += v
 			if e.Op == "AVG" || e.Op == "WAVG" {
-				sum += v*w - v
+				sum += v * w
 				wsum += w
+			} else {
+				sum += v
 			}
 		}
 		if n == 0 {
